@@ -67,7 +67,7 @@ struct BrokerOut {
 
 /// answer policy: 0 at once, 1 random batches, 2 one reply per episode in random channel order,
 /// 3 hold until every running channel waits (or 15 ms), then all heads in random order
-fn broker(peer: Peer, policy: u64, seed: u64, running: Arc<AtomicUsize>, stop: Arc<AtomicBool>) -> BrokerOut {
+fn broker(peer: Peer, policy: u64, seed: u64, running: Arc<AtomicUsize>, stop: Arc<AtomicBool>, kill_after: Option<usize>) -> BrokerOut {
     let mut rng = Rng::new(seed);
     let mut out = BrokerOut { seen: BTreeMap::new(), bad_stream: false };
     let mut pend: BTreeMap<u16, VecDeque<AMQPFrame>> = BTreeMap::new();
@@ -75,6 +75,7 @@ fn broker(peer: Peer, policy: u64, seed: u64, running: Arc<AtomicUsize>, stop: A
     let mut header_done = false;
     let mut last_len = 0usize;
     let mut hold_since: Option<Instant> = None;
+    let mut program_frames = 0usize;
     loop {
         if stop.load(Ordering::SeqCst) || peer.dropped() {
             return out;
@@ -117,6 +118,7 @@ fn broker(peer: Peer, policy: u64, seed: u64, running: Arc<AtomicUsize>, stop: A
                     }
                     other => {
                         if let Some((sync, r, rep)) = classify(*ch, other) {
+                            program_frames += 1;
                             out.seen.entry(*ch).or_default().push((sync, r));
                             if let Some(rep) = rep {
                                 pend.entry(*ch).or_default().push_back(rep);
@@ -124,6 +126,16 @@ fn broker(peer: Peer, policy: u64, seed: u64, running: Arc<AtomicUsize>, stop: A
                         }
                     }
                 }
+            }
+        }
+        // the server goes away: end of stream, nothing more is answered
+        if let Some(k) = kill_after {
+            if program_frames >= k {
+                peer.push_episode(Episode::Eof);
+                while !stop.load(Ordering::SeqCst) && !peer.dropped() {
+                    std::thread::sleep(Duration::from_millis(2));
+                }
+                return out;
             }
         }
         // release
@@ -190,7 +202,10 @@ pub fn scenario(sub: u64) -> Option<(String, bool)> {
     let running = Arc::new(AtomicUsize::new(0));
     let stop = Arc::new(AtomicBool::new(false));
     let (p2, r2, s2, bseed) = (peer.clone(), running.clone(), stop.clone(), rng.next());
-    let bh = std::thread::spawn(move || broker(p2, policy, bseed, r2, s2));
+    // in a quarter of the scenarios the server goes away (end of stream) after a random number of requests
+    let total: usize = progs.iter().map(|p| p.len()).sum();
+    let kill_after = if rng.chance(1, 4) { Some(rng.range(1, total as u64) as usize) } else { None };
+    let bh = std::thread::spawn(move || broker(p2, policy, bseed, r2, s2, kill_after));
     // the transport takes the client's bytes in small pieces now and then
     if rng.chance(1, 3) {
         let steps: VecDeque<WStep> = (0..rng.range(5, 60)).map(|_| if rng.chance(1, 4) { WStep::Block } else { WStep::Wrote(rng.range(1, 40) as usize) }).collect();
@@ -280,13 +295,14 @@ pub fn scenario(sub: u64) -> Option<(String, bool)> {
     // a pseudo-random schedule for the model, derived from the same seed
     let sched: Vec<u64> = (0..rng.range(0, 120)).map(|_| rng.below(1000)).collect();
     let term = format!(
-        "({}, [{}], {}, {}, {}, {})",
+        "({}, [{}], {}, {}, {}, {}, {})",
         bound,
         chans_coq.join("; "),
         coqfmt::list(&sched, |x| x.to_string()),
         coqfmt::b(hung),
         coqfmt::b(closed),
-        coqfmt::b(bo.bad_stream)
+        coqfmt::b(bo.bad_stream),
+        coqfmt::b(kill_after.is_some())
     );
     Some((term, hung))
 }
@@ -311,6 +327,9 @@ pub fn run(a: &Args) {
                     sink.count("scenario");
                     if hung {
                         sink.count("hung");
+                    }
+                    if term.ends_with("true)") {
+                        sink.count("server-went-away");
                     }
                     sink.push_line(term, true, format!("c04sys {}", s));
                 }
